@@ -20,10 +20,10 @@ ID = "C19"
 LEVEL = "exploration"
 TECHNIQUE = "reference-oracle monitor: CPython evaluates the expression pyanalyze analysed"
 RULE = (
-    "case = one expression over a fixed universe of 48 literal operands (ints incl. 0/negatives, bools, floats, "
+    "case = one expression over a fixed universe of 49 literal operands (ints incl. 0/negatives, bools, floats, "
     "complex, str, bytes, tuples incl. empty/nested, None, Enum, IntEnum, IntFlag and str-mixin Enum members, classes, modules os/math). "
-    "(1) flat, enumerated exhaustively in both tiers: operand x 13 binary operators x operand ('%' with a str/bytes "
-    "left operand excluded: C17), operand x 4 unary operators, operand x 21 subscript indices (in range / out of "
+    "(1) flat, enumerated exhaustively in both tiers: operand x 13 binary operators x operand ('%' with a plain str/bytes "
+    "left operand excluded: C17; str-mixin enum members are included), operand x 4 unary operators, operand x 21 subscript indices (in range / out of "
     "range / negative ints, bool, IntEnum, slices incl. a non-index bound, str, None, float), operand.attr for every "
     "name in dir(operand) plus 6 fixed and up to 6 derived misspellings. (2) 3-operand nests: a seed-independent "
     "selection of distinct small results of the flat operations (quick <= 2, thorough <= 64 values per result type), "
@@ -41,7 +41,7 @@ LEVEL_TEXT = (
 ASSUMPTIONS = [
     "CPython 3.12 in /venv is the oracle; the expression is evaluated with eval() in the analysed module's namespace",
     "diagnosed = undefined_attribute / unsupported_operation / incompatible_call / incompatible_argument / "
-    "not_callable on the expression's line; every other code on the line is lint-only and ignored",
+    "not_callable on the expression's line (bad_format_string too when CPython raises on a `%` whose left operand is a str-mixin enum member); every other code on the line is lint-only and ignored",
     "claimed exceptions: TypeError, AttributeError; IndexError only for a literal tuple display indexed by an int "
     "literal; ZeroDivisionError / OverflowError / ValueError / MemoryError / KeyError / str-bytes IndexError outcomes "
     "are on neither side of the iff (counted as out_of_scope)",
@@ -69,6 +69,9 @@ BATCH = 300
 
 DIAG_CODES = {"undefined_attribute", "unsupported_operation", "incompatible_call", "incompatible_argument",
               "not_callable"}
+# `%` with a str-mixin enum member on the left goes through the format-string checker: its bad_format_string counts as
+# a diagnosis when CPython raises, but (being partly a lint: "no conversion specifiers") never as a spurious report
+FORMAT_DIAG_CODES = {"bad_format_string"}
 CLAIMED = (TypeError, AttributeError)
 
 PRELUDE = '''
@@ -119,7 +122,7 @@ OPERANDS = [
     # enum / IntEnum members
     "Color.RED", "Color.BLUE", "Num.ONE", "Num.TWO",
     # IntFlag members (operators return members of the flag class) and a str-mixin enum
-    "Perm.R", "Perm.W", "Unit.PLAIN",
+    "Perm.R", "Perm.W", "Unit.PLAIN", "Unit.FMT",
     # classes
     "A", "B", "C", "Color", "Num", "int", "tuple",
     # modules
@@ -398,7 +401,7 @@ def _is_enum_member_ref(node: ast.Attribute) -> bool:
 
 def is_c17(n: Node) -> bool:
     """`%` with a str/bytes left operand is C17's business."""
-    return n.kind == "binop" and n.op == "Mod" and n.children[0].ok and isinstance(n.children[0].val, (str, bytes))
+    return n.kind == "binop" and n.op == "Mod" and n.children[0].ok and type(n.children[0].val) in (str, bytes)
 
 
 # ---------------------------------------------------------------------------
@@ -520,6 +523,8 @@ def judge(ctx, src: str, family: str, top: ast.AST, line_diags, ns: dict) -> Non
         ctx.count("excluded_c17")
         return
     ds = [d for d in line_diags if d.code in DIAG_CODES]
+    if failing is not None and not ds:
+        ds = [d for d in line_diags if d.code in FORMAT_DIAG_CODES]
     other = [d for d in line_diags if d.code not in DIAG_CODES]
     for d in other:
         ctx.histo("lint_only_codes_ignored", d.code)
@@ -643,7 +648,9 @@ def misspell(name: str) -> str:
 
 
 def attr_names(obj) -> list:
-    names = sorted(dir(obj))
+    # dir(module) lists the module namespace only: the names a module inherits from its type / object
+    # (__class__, __eq__, __reduce__ ...) exist at run time too
+    names = sorted(set(dir(obj)) | set(dir(type(obj))))
     have = set(names)
     out = list(names)
     for m in FIXED_MISSPELLINGS:
@@ -663,7 +670,7 @@ def flat_cases(ns: dict):
     for a in OPERANDS:
         for opname, sym in BINOPS:
             for b in OPERANDS:
-                if opname == "Mod" and isinstance(vals[a], (str, bytes)):
+                if opname == "Mod" and type(vals[a]) in (str, bytes):
                     continue
                 if too_big(opname, vals[a], vals[b]):
                     yield "skipped_huge", f"{par(a)} {sym} {par(b)}"
@@ -763,12 +770,12 @@ def nest_cases(ns: dict, seed: int, per_type: int):
     for v, inner in inner_pool(ns, seed, per_type):
         for opname, sym in BINOPS:
             for c in OPERANDS:
-                if not (opname == "Mod" and isinstance(v, (str, bytes))):
+                if not (opname == "Mod" and type(v) in (str, bytes)):
                     if too_big(opname, v, vals[c]):
                         yield "skipped_huge", f"{par(inner)} {sym} {par(c)}"
                     else:
                         yield "nest", f"{par(inner)} {sym} {par(c)}"
-                if not (opname == "Mod" and isinstance(vals[c], (str, bytes))):
+                if not (opname == "Mod" and type(vals[c]) in (str, bytes)):
                     if too_big(opname, vals[c], v):
                         yield "skipped_huge", f"{par(c)} {sym} {par(inner)}"
                     else:
